@@ -1,6 +1,8 @@
 /- Helper lemmas for the number-theoretic models (Mpir/Model/Numth.lean), property C16. -/
 import MpirProofs.Lemmas.Base
 import Mpir.Model.Numth
+import Mpir.Ops.Numth
+import Mathlib.NumberTheory.Primorial
 import Mathlib.Data.Nat.Fib.Basic
 import Mathlib.Data.Nat.Factorial.Basic
 import Mathlib.Data.Nat.Factorial.DoubleFactorial
@@ -1643,5 +1645,98 @@ theorem mpz_bin_ui_eq (n : ℤ) (k : ℕ) :
       obtain ⟨nacc, kacc, r⟩ := res
       simp only at hl ⊢
       rw [hl, this]; rfl
+
+/-! ## spec connections for primorial / multifactorial / nextprime, predicate soundness -/
+
+theorem primorial_eq (n : ℕ) : primorial n = _root_.primorial n := by
+  induction n with
+  | zero => rfl
+  | succ n ih =>
+    rw [primorial, ih]
+    unfold _root_.primorial
+    rw [Finset.range_add_one (n := n + 1), Finset.filter_insert]
+    by_cases hp : (n + 1).Prime
+    · have : isPrimeTD (n + 1) = true := (isPrimeTD_iff _).2 hp
+      simp only [this, if_true, hp]
+      rw [Finset.prod_insert (by simp)]
+    · have : ¬ isPrimeTD (n + 1) = true := fun h => hp ((isPrimeTD_iff _).1 h)
+      simp only [this, if_false, hp, Bool.false_eq_true]
+
+/-- defining recursion of the multifactorial spec: n!^(m) = n · (n-m)!^(m), and n (or 1) once n ≤ m -/
+theorem multiFactorial_rec (n m : ℕ) (hm : 1 ≤ m) :
+    multiFactorial n m = if n ≤ m then (if n = 0 then 1 else n) else n * multiFactorial (n - m) m := by
+  have aux : ∀ n fuel, n ≤ fuel → mfacAux m fuel n = mfacAux m n n := by
+    intro n
+    induction n using Nat.strong_induction_on with
+    | _ n ih =>
+      intro fuel h
+      rcases Nat.eq_zero_or_pos n with rfl | hpos
+      · cases fuel <;> simp [mfacAux]
+      · obtain ⟨k, rfl⟩ : ∃ k, n = k + 1 := ⟨n - 1, by omega⟩
+        obtain ⟨f, rfl⟩ : ∃ f, fuel = f + 1 := ⟨fuel - 1, by omega⟩
+        rw [mfacAux, mfacAux]
+        by_cases hc : k + 1 ≤ m
+        · simp [hc]
+        · simp only [hc, if_false]
+          rw [ih (k + 1 - m) (by omega) f (by omega), ih (k + 1 - m) (by omega) k (by omega)]
+  unfold multiFactorial
+  rcases Nat.eq_zero_or_pos n with rfl | hpos
+  · simp [mfacAux]
+  · obtain ⟨k, rfl⟩ : ∃ k, n = k + 1 := ⟨n - 1, by omega⟩
+    rw [mfacAux]
+    by_cases hc : k + 1 ≤ m
+    · simp [hc]
+    · simp only [hc, if_false]
+      rw [aux (k + 1 - m) k (by omega)]
+
+theorem firstPrimeFrom_spec : ∀ fuel m, m ≤ firstPrimeFrom fuel m ∧ firstPrimeFrom fuel m ≤ m + fuel ∧
+    (∀ j, m ≤ j → j < firstPrimeFrom fuel m → isPrime j = false) := by
+  intro fuel
+  induction fuel with
+  | zero => intro m; simp only [firstPrimeFrom]; exact ⟨le_rfl, le_rfl, fun j h1 h2 => by omega⟩
+  | succ fuel ih =>
+    intro m
+    rw [firstPrimeFrom]
+    by_cases hp : isPrime m = true
+    · simp only [hp, if_true]; exact ⟨le_rfl, by omega, fun j h1 h2 => by omega⟩
+    · simp only [hp, if_false, Bool.false_eq_true]
+      obtain ⟨h1, h2, h3⟩ := ih (m + 1)
+      refine ⟨by omega, by omega, fun j hj1 hj2 => ?_⟩
+      rcases Nat.eq_or_lt_of_le hj1 with rfl | hlt
+      · simpa using hp
+      · exact h3 j hlt hj2
+
+open Mpir.Ops.Numth in
+/-- acceptance by the nextprime predicate is sound for real primes: no prime lies strictly between -/
+theorem nextOk_none (n r : ℤ) (h : nextOk n r = none) :
+    n < r ∧ ∀ j : ℕ, n < (j : ℤ) → (j : ℤ) < r → ¬ j.Prime := by
+  unfold nextOk at h
+  by_cases h1 : r ≤ n
+  · simp [h1] at h
+  · simp only [h1, if_false] at h
+    refine ⟨by omega, fun j hj1 hj2 hp => ?_⟩
+    generalize hlo : (if n < 0 then 0 else n.toNat) = lo at h
+    have hlo' : (lo : ℤ) ≤ max n 0 := by
+      subst hlo; split_ifs <;> omega
+    by_cases h2 : r.toNat ≤ nextPrime lo
+    · unfold nextPrime at h2
+      obtain ⟨_, _, h3⟩ := firstPrimeFrom_spec (lo + 2) (lo + 1)
+      have hjpos : 1 ≤ j := hp.one_lt.le
+      have := h3 j (by omega) (by omega)
+      rw [isPrime_of_prime j hp] at this
+      exact absurd this (by simp)
+    · simp [h2] at h
+
+open Mpir.Ops.Numth in
+/-- acceptance by the primality-code predicate is sound for real primes: a prime never gets code 0;
+    code 2 is accepted only when the oracle says prime -/
+theorem codeOk_none (n : ℕ) (r : ℤ) (codes : List ℤ) (strict : Bool) (h : codeOk n r codes strict = none) :
+    (n.Prime → r ≠ 0) ∧ (r = 2 → isPrime n = true) ∧ (strict = true → isPrime n = false → r = 0) := by
+  unfold codeOk at h
+  split_ifs at h with h1 h2 h3 h4 h5
+  · exact ⟨fun _ => h3, fun _ => h2, fun _ hc => by rw [h2] at hc; exact absurd hc (by simp)⟩
+  · refine ⟨fun hp => absurd (isPrime_of_prime n hp) h2, fun h2' => absurd h2' h4, fun hs _ => ?_⟩
+    by_contra hne
+    exact h5 (by simp [hs, hne])
 
 end Mpir.Numth
